@@ -914,6 +914,50 @@ pub fn compute_live_helpers(
         .collect()
 }
 
+/// A (mod ...) used as an expression is parsed by its own run of the frontend,
+/// which reads the files its include and embed-file forms name.  Those files
+/// are dependencies of the program the expression appears in.
+fn collect_nested_includes_bodyform(body: &BodyForm, includes: &mut Vec<IncludeDesc>) {
+    match body {
+        BodyForm::Let(_, letdata) => {
+            for b in letdata.bindings.iter() {
+                collect_nested_includes_bodyform(b.body.borrow(), includes);
+            }
+            collect_nested_includes_bodyform(letdata.body.borrow(), includes);
+        }
+        BodyForm::Call(_, args, tail) => {
+            for a in args.iter() {
+                collect_nested_includes_bodyform(a.borrow(), includes);
+            }
+            if let Some(t) = tail {
+                collect_nested_includes_bodyform(t.borrow(), includes);
+            }
+        }
+        BodyForm::Mod(_, program) => {
+            includes.extend(program.include_forms.iter().cloned());
+        }
+        BodyForm::Lambda(ldata) => {
+            collect_nested_includes_bodyform(ldata.captures.borrow(), includes);
+            collect_nested_includes_bodyform(ldata.body.borrow(), includes);
+        }
+        BodyForm::Quoted(_) | BodyForm::Value(_) => {}
+    }
+}
+
+fn collect_nested_includes_helper(helper: &HelperForm, includes: &mut Vec<IncludeDesc>) {
+    match helper {
+        HelperForm::Defconstant(defc) => {
+            collect_nested_includes_bodyform(defc.body.borrow(), includes);
+        }
+        HelperForm::Defmacro(mac) => {
+            includes.extend(mac.program.include_forms.iter().cloned());
+        }
+        HelperForm::Defun(_, defun) => {
+            collect_nested_includes_bodyform(defun.body.borrow(), includes);
+        }
+    }
+}
+
 /// Entrypoint for compilation.  This yields a CompileForm which represents a full
 /// program.
 ///
@@ -950,6 +994,13 @@ pub fn frontend(
     };
 
     let our_mod = rename_children_compileform(&compiled?)?;
+
+    // Every helper, called or not, was parsed above and so were the (mod ...)
+    // expressions in it.
+    for h in our_mod.helpers.iter() {
+        collect_nested_includes_helper(h, &mut includes);
+    }
+    collect_nested_includes_bodyform(our_mod.exp.borrow(), &mut includes);
 
     let expr_names: HashSet<Vec<u8>> = collect_used_names_bodyform(our_mod.exp.borrow())
         .iter()
